@@ -162,6 +162,23 @@ def execute_c08(case):
                                           'del_pool', 'collect']):
             where = 'other'
             ws = ' '.join(obs.get('worker_stacks', {}).values())
+            per = list(obs.get('worker_stacks', {}).values())
+            waiting = [w for w in per if '__enter__' in w and 'synchronize.py' in w]
+            holding = [w for w in per if 'recv_bytes' in w or
+                       ('get_payload' in w and '__enter__' not in w)]
+            if mass and waiting and not holding and \
+                    '_help_stuff_finish' in obs['stacks']:
+                # open finding D26: every live worker - and terminate() itself -
+                # waits for the task queue's read lock and nobody alive holds it:
+                # one of the idle workers that were told to exit died between
+                # acquiring the lock and entering the `with` body (the pending
+                # SIGTERM is raised in SemLock.__enter__'s Python frame)
+                return bad('C08/terminate-hangs/queue-lock-leaked-by-signalled-'
+                           'idle-worker', 'terminate() did not return within %ss; '
+                           'live workers all wait for the read lock, none holds '
+                           'it\n%s\nworkers:\n%s' % (
+                               scen['watch'], obs['stacks'][-1200:], ws[-1500:]),
+                           nontrivial, labels)
             if '__enter__' in ws and 'synchronize.py' in ws:
                 where = 'workers-blocked-on-queue-lock'
                 # D21: terminate() raced the supervisor's replacement of
